@@ -1,10 +1,10 @@
 ------------------------------ MODULE MC_Efi ------------------------------
 EXTENDS MCInfoLib
-CONSTANTS MaxD, LCap
+CONSTANTS MaxD, LCap, EfiSizeSet
 
 \* ---- Efi corpus (C18): descriptor size x version x map length, all prefixes of the iteration ------------
 \* environment plan: create, then (len, next) past the naive count, size_hint, a clone, Debug
-EfiSizes == 0..MaxD
+EfiSizes == IF EfiSizeSet = {} THEN 0..MaxD ELSE EfiSizeSet     \* a chosen set of descriptor sizes, or all up to MaxD
 \* atEnd: the map tag is the last one before the end tag, so that reading a descriptor that overlaps the end of the
 \* tag by more than 8 bytes leaves the region (and faults on the guard page)
 EfiParamsSet == UNION { { [d |-> d, v |-> v, L |-> L, atEnd |-> e] : L \in 0..Min(3 * d + 9, LCap), e \in BOOLEAN } : d \in EfiSizes, v \in {0, 1, 2} }
